@@ -1,6 +1,7 @@
 pub mod checker;
 pub mod crash;
 pub mod gsom;
+pub mod lkh;
 pub mod pop;
 pub mod restart;
 pub mod rl;
